@@ -47,8 +47,9 @@ type aoCase struct {
 		Name string  `json:"name"`
 		Keys []aoKey `json:"keys"`
 	} `json:"alts"` // a choice root `@x | @y`: the listing of each alternative
-	Warm   []string `json:"warm,omitempty"`   // call prefix (SchemaApi_orders) after which the assertions are repeated
-	OptDef bool     `json:"optdef,omitempty"` // the named types are created with AreKeysOptionalByDefault
+	Warm    []string `json:"warm,omitempty"`    // call prefix (SchemaApi_orders) after which the assertions are repeated
+	OptDef  bool     `json:"optdef,omitempty"`  // the named types are created with AreKeysOptionalByDefault
+	SelfReg bool     `json:"selfreg,omitempty"` // the root is registered as a type under the name @main
 }
 
 var aoCodes = map[string]int{"missing": 1302, "nonobject": 704, "cycle": 703, "duplicate": 402, "apconflict": 705}
@@ -112,6 +113,9 @@ func aoDump(cs aoCase) string {
 	kv := map[string]string{"k1": "1", "k2": `"two"`, "k3": "true"}
 	var sb strings.Builder
 	fmt.Fprintf(&sb, "ROOT %s\n", strings.ReplaceAll(aoText(cs.Root, kv), "\n", " "))
+	if cs.SelfReg {
+		sb.WriteString("TYPE @main = the root object itself\n")
+	}
 	for _, t := range cs.Types {
 		if t.D.Kind == "withheld" {
 			fmt.Fprintf(&sb, "TYPE @%s (not registered)\n", t.Name)
@@ -171,6 +175,11 @@ func aoEvalAfter(cs aoCase, warm []string) []core.Finding {
 			ty.AreKeysOptionalByDefault = cs.OptDef
 			if err := root.AddType("@"+t.Name, ty); err != nil {
 				return []core.Finding{{Class: "allof:addtype", What: fmt.Sprintf("AddType(@%s): %v\n%s", t.Name, firstLineOf(err), aoDump(cs))}}
+			}
+		}
+		if cs.SelfReg {
+			if err := root.AddType("@main", root); err != nil {
+				return []core.Finding{{Class: "allof:addtype", What: fmt.Sprintf("AddType(@main, the root itself): %v\n%s", firstLineOf(err), aoDump(cs))}}
 			}
 		}
 		if p := warmUp(root, warm); p != "" {
@@ -347,8 +356,9 @@ func aoChoiceListing(cs aoCase, root *jschema.JSchema) (fs []core.Finding) {
 func runC07(c *core.Ctx) error {
 	type cf struct{ name, body string }
 	mko := func(n int, keys string, ml int, aps string, nest string, choice string, optdef string) string {
-		return fmt.Sprintf("SPECIFICATION Spec\nCONSTANTS\n  N = %d\n  KeySet = %s\n  MaxList = %d\n  APs = %s\n  Nest = %s\n  RootChoice = %s\n  OptDefTypes = %s\nINVARIANTS MergeHasNoDuplicateKeys MergeStable NoListNoChange NestedHeirGains Emit\nCHECK_DEADLOCK FALSE\n", n, keys, ml, aps, nest, choice, optdef)
+		return fmt.Sprintf("SPECIFICATION Spec\nCONSTANTS\n  N = %d\n  KeySet = %s\n  MaxList = %d\n  APs = %s\n  Nest = %s\n  RootChoice = %s\n  OptDefTypes = %s\n  SelfReg = FALSE\nINVARIANTS MergeHasNoDuplicateKeys MergeStable NoListNoChange NestedHeirGains Emit\nCHECK_DEADLOCK FALSE\n", n, keys, ml, aps, nest, choice, optdef)
 	}
+	mks := func(body string) string { return strings.Replace(body, "SelfReg = FALSE", "SelfReg = TRUE", 1) }
 	mkc := func(n int, keys string, ml int, aps string, nest string, choice string) string {
 		return mko(n, keys, ml, aps, nest, choice, "FALSE")
 	}
@@ -358,7 +368,9 @@ func runC07(c *core.Ctx) error {
 	cfgs := []cf{{"AllOf_2.cfg", mk(2, `{"k1", "k2"}`, 2, `{"absent", "false", "true"}`, "FALSE")},
 		{"AllOf_2nest.cfg", mk(2, `{"k1", "k2"}`, 1, `{"absent"}`, "TRUE")},
 		{"AllOf_2choice.cfg", mkc(2, `{"k1", "k2"}`, 1, `{"absent"}`, "FALSE", "TRUE")},
-		{"AllOf_2optdef.cfg", mko(2, `{"k1", "k2"}`, 1, `{"absent"}`, "FALSE", "FALSE", "TRUE")}}
+		{"AllOf_2optdef.cfg", mko(2, `{"k1", "k2"}`, 1, `{"absent"}`, "FALSE", "FALSE", "TRUE")},
+		{"AllOf_2self.cfg", mks(mk(2, `{"k1", "k2"}`, 1, `{"absent"}`, "FALSE"))},
+		{"AllOf_2selfnest.cfg", mks(mk(2, `{"k1"}`, 1, `{"absent"}`, "TRUE"))}}
 	if c.Thorough() {
 		cfgs = append(cfgs, cf{"AllOf_2ap.cfg", mk(2, `{"k1", "k2"}`, 2, `{"absent", "false", "string", "any", "true"}`, "FALSE")},
 			cf{"AllOf_3.cfg", mk(3, `{"k1", "k2"}`, 1, `{"absent", "false"}`, "FALSE")},
